@@ -42,6 +42,11 @@ func VH_C10() {
 			kvs = append(kvs, e.entry())
 		}
 		all = append(all, es...)
+		if levels := vf.Param("LEVELS", 1); levels > 1 {
+			// arbitrary distribution over levels (newer versions may sit in deeper levels)
+			vplaceTable(lm, vf.Choose("level", 0, levels-1), kvs)
+			continue
+		}
 		err := lm.flushToL0(kvs)
 		vf.Assert("flush", err == nil)
 	}
